@@ -451,7 +451,7 @@ func (w *udpWorld) write(si, n, dstSel int) {
 }
 
 func (w *udpWorld) apply(s Step) {
-	if s.Op == "read" || s.Op == "drain" || s.Op == "shutr" || s.Op == "close" || s.Op == "write" || s.Op == "open" || s.Op == "connect" || s.Op == "icmperr" || s.Op == "failbind" {
+	if s.Op == "read" || s.Op == "drain" || s.Op == "shutr" || s.Op == "close" || s.Op == "write" || s.Op == "open" || s.Op == "connect" || s.Op == "icmperr" || s.Op == "failbind" || s.Op == "cwrite" {
 		// the simulator's own socket calls are ordered after everything posted so
 		// far (posted reads, arrivals still in the receive goroutine's inbox)
 		w.Settle()
@@ -540,6 +540,56 @@ func (w *udpWorld) apply(s Step) {
 			}
 			w.Settle()
 		}
+	case "cwrite":
+		// two goroutines write on one unconnected IPv4 socket at the same time, to different destinations: two
+		// packets, each carrying its own bytes to its own destination
+		if s.A < 0 || s.A >= len(w.socks) {
+			break
+		}
+		sk := w.socks[s.A]
+		if sk.closed || sk.conn || (sk.kind != 0 && sk.kind != 1) {
+			break
+		}
+		w.Take()
+		var pay [2][]byte
+		var errs [2]*tcpip.Error
+		done := make(chan int, 2)
+		for i := 0; i < 2; i++ {
+			w.narr++
+			pay[i] = udpPayload(w.seed, w.narr, 10+(s.B*(i+3))%300)
+			i := i
+			go func() {
+				_, _, errs[i] = sk.ep.Write(tcpip.SlicePayload(append([]byte(nil), pay[i]...)), tcpip.WriteOptions{To: &tcpip.FullAddress{Addr: udpPeers4[i], Port: uint16(9000 + i)}})
+				done <- i
+			}()
+		}
+		w.Settle()
+		<-done
+		<-done
+		w.Probes["concurrent_writes_on_one_socket"]++
+		var frames []*Decoded
+		for _, d := range w.Take() {
+			if d.UDP != nil || d.Err != nil {
+				frames = append(frames, d)
+			}
+		}
+		for i := 0; i < 2; i++ {
+			if errs[i] != nil {
+				continue // (a link fault may refuse one: the write then failed, nothing is owed)
+			}
+			n := 0
+			for _, d := range frames {
+				if d.Err == nil && bytes.Equal(d.UDP.Payload, pay[i]) {
+					n++
+					if !sameAddr(d.IP.Dst, string(udpPeers4[i])) || d.UDP.DstPort != uint16(9000+i) {
+						w.Fail("wrong-destination", "", "two concurrent writes on one socket: the datagram written to % x port %d was emitted to % x port %d", []byte(udpPeers4[i]), 9000+i, d.IP.Dst, d.UDP.DstPort)
+					}
+				}
+			}
+			if n != 1 {
+				w.Fail("write-not-one-packet", "", "two concurrent writes on one socket: the %d-byte datagram written to % x port %d was emitted %d times as such (%d frames left the stack)", len(pay[i]), []byte(udpPeers4[i]), 9000+i, n, len(frames))
+			}
+		}
 	case "icmperr":
 		// the destination of the socket's last datagram reports "port unreachable", quoting it: whatever
 		// the following Reads report, they must not hand out a datagram nobody sent
@@ -625,7 +675,9 @@ func (w *udpWorld) next() Step {
 	if r.Chance(0.06) {
 		return Step{Op: "tsopt", A: si, B: r.Intn(2)}
 	}
-	switch r.Pick(10, 3, 2, 6, 2, 3, 1, 1, 2, 1, 1, 1, 1) {
+	switch r.Pick(10, 3, 2, 6, 2, 3, 1, 1, 2, 1, 1, 1, 1, 1) {
+	case 13:
+		return Step{Op: "cwrite", A: si, B: r.Intn(1000)}
 	case 11:
 		return Step{Op: "icmperr", A: si}
 	case 12:
